@@ -17,7 +17,8 @@ def run_groups(v, ids, dtype):
     from phylib.io.array import _spikes_per_cluster
     vv = np.asarray(v, dtype=dtype)
     d = _spikes_per_cluster(vv, None if ids is None else np.asarray(ids, dtype=np.int64))
-    return [[int(k), as_list(s)] for k, s in d.items()], d
+    # (the order of the dictionary's keys is not part of the statement: sorted by cluster id)
+    return sorted([[int(k), as_list(s)] for k, s in d.items()]), d
 
 
 def observe(v, ids, dtype, reqs, lookups, w, neg=()):
